@@ -186,18 +186,19 @@ class SmtLibSolver(Solver): # TODO this class is defined twice in pysmt. Here an
 
     @clear_pending_pop
     def push(self, levels=1):
-        # One set of declarations for each level of the solver
+        self._send_silent_command(SmtLibCommand(smtcmd.PUSH, [levels]))
+        # One set of declarations for each level of the solver (tracked
+        # only once the solver has accepted the command)
         for _ in range(levels):
             self.declared_vars.append(set())
             self.declared_sorts.append(set())
-        self._send_silent_command(SmtLibCommand(smtcmd.PUSH, [levels]))
 
     @clear_pending_pop
     def pop(self, levels=1):
+        self._send_silent_command(SmtLibCommand(smtcmd.POP, [levels]))
         for _ in range(levels):
             self.declared_vars.pop()
             self.declared_sorts.pop()
-        self._send_silent_command(SmtLibCommand(smtcmd.POP, [levels]))
 
     def get_value(self, item):
         self._send_command(SmtLibCommand(smtcmd.GET_VALUE, [item]))
